@@ -221,11 +221,14 @@ def violations_from(V, examples_of, counts):
         groups[json.dumps(classify(clause, kind, case0, info0), sort_keys=True)]['cases'] += counts[rep]
     out = []
     for g in groups.values():
-        g['inputs'].sort(key=lambda d: len(d['source']))
+        # hand-written inputs first, then by length: the headline input does not depend on the seed
+        g['inputs'].sort(key=lambda d: (d['family'].split('_')[0] in ('random', 'bytes', 'mutant', 'soup:'),
+                                        len(d['source']), d['source']))
         first = g['inputs'][0]
-        what = '%s %s: %d case(s); shortest input (%s, %s): %r' % (
-            g['clause'], json.dumps(g['classifier'], sort_keys=True), g['cases'], first['mode'],
-            first['family'], first['source'][:120])
+        what = '%s %s; e.g. (%s, %s%s): %r' % (
+            g['clause'], json.dumps(g['classifier'], sort_keys=True), first['mode'], first['family'],
+            '' if (first['options']['s'], first['options']['m']) == (500, 16) else
+            ', -m %d -s %d' % (first['options']['m'], first['options']['s']), first['source'][:120])
         out.append(common.Violation(PROP, what, g['classifier'],
                                     {'cases': g['cases'], 'families': g['fams'], 'inputs': g['inputs'][:25]}))
     return out
@@ -254,7 +257,7 @@ def run_all(tier, seed, note=None):
         elif quick:
             seqs, sr = S.enumerate_soups(3, extra=1, sample_mod=16, seed=seed)
         else:
-            seqs, sr = S.enumerate_soups(4, extra=1, sample_mod=26, seed=seed, timeout=2400)
+            seqs, sr = S.enumerate_soups(4, extra=1, sample_mod=104, seed=seed, timeout=2400)
         cov['soup_tlc_wall_s'] = round(time.time() - t1, 1)
         cov['soup_sequences'] = len(seqs)
         cov['soup_states'] = sr.distinct
@@ -351,7 +354,7 @@ def run_all(tier, seed, note=None):
             'trace_action_counts': {k: v[1] for k, v in V.coverage.items()},
             'exhaustive': 'token soups: every sequence of <= %d tokens over %d tokens in %d holes; 1/%d of length %d'
                           % ((2, len(S.ALPHABET), len(S.HOLES), 1, 3) if tier == 'mini' else
-                             (3, len(S.ALPHABET), len(S.HOLES), 16, 4) if quick else (4, len(S.ALPHABET), len(S.HOLES), 26, 5)),
+                             (3, len(S.ALPHABET), len(S.HOLES), 16, 4) if quick else (4, len(S.ALPHABET), len(S.HOLES), 104, 5)),
             'samples': samples,
         })
         if note:
